@@ -181,6 +181,7 @@ func main() {
 		for _, c := range readCases(o.Input) {
 			res := runDyn(c.src)
 			hx.Emit(c.id, "S "+esc(c.src), res)
+			hx.Flush() // a fatal runtime error in a later program must not lose this line
 			if !strings.HasPrefix(res, "aborted") && !strings.HasPrefix(res, "rejected") {
 				break
 			}
